@@ -126,6 +126,73 @@ def monitor (c : Config) (o : Obs) : Option String :=
     else if o.doc.RequestParameterSupported && !(o.requestObject == "honoured" || o.requestObject == "na") then some "request-object-not-honoured"
     else none
 
+/-! ### one request after another: the document is the document of THIS request
+
+A provider whose issuer is derived from the request (`op.IssuerFromHost`, `op.IssuerFromForwardedOrHost`) serves many hosts. The
+statement's "the discovery document's issuer equals the issuer put into issued tokens" and "every advertised endpoint URL is the
+issuer-relative address …" are claims about every single request, whatever the provider was asked before: the document handed to a
+host names the issuer of THAT host, which is the `iss` of the tokens issued through that host right afterwards. -/
+
+/-- one discovery request as its sender knows it -/
+structure Visit where
+  strategy : IssuerStrategy := .static ""
+  /-- the request's Host line -/
+  host : String := ""
+  /-- the host named by the forwarding header(s) the provider was configured to trust: the first such header, in the configured
+      order, that is well-formed and names a host (`none`: there is none, the Host line counts) -/
+  fwdHost : Option String := none
+  deriving Repr, Inhabited
+
+/-- the issuer path as it is appended to the host: empty, or with exactly the leading slash it needs -/
+def issuerPathSuffix (path : String) : String :=
+  if path == "" then "" else if Go.hasPrefix path "/" then path else "/" ++ path
+
+/-- the issuer a request is entitled to, by the documented meaning of the three strategies: the configured one; scheme://Host/path;
+    scheme://(forwarded host, else Host)/path — https unless the provider was built with the insecure opt-in -/
+def issuerOfRequest (insecure : Bool) (v : Visit) : String :=
+  let scheme := if insecure then "http" else "https"
+  match v.strategy with
+  | .static iss => iss
+  | .fromHost path => scheme ++ "://" ++ v.host ++ issuerPathSuffix path
+  | .fromForwarded path => scheme ++ "://" ++ v.fwdHost.getD v.host ++ issuerPathSuffix path
+
+/-- what was observed for one visit: the document served to this request and the `iss` of every token issued through the same host
+    immediately afterwards (kind ↦ iss: `id` id_token and `at` JWT access token of an authorization-code flow, `cc` JWT access token
+    of the client_credentials grant) -/
+structure VisitObs where
+  status : Nat := 200
+  doc : DiscoveryConfiguration := {}
+  tokenIssuers : List (String × String) := []
+  deriving Repr, Inhabited
+
+/-- an endpoint member names the address of that endpoint (as `fieldOK`, without the route probe) -/
+def fieldAddressOK (c : Config) (d : DiscoveryConfiguration) (f : Field) : Bool :=
+  let e := f.configured c.endpoints
+  let adv := f.advertised d
+  if adv == "" then true
+  else if e.isNil then false
+  else if e.url != "" then adv == e.url
+  else adv == issuerRelative d.Issuer e
+
+/-- the monitor for one visit of a sequence: `none` = satisfied -/
+def monitorVisit (c : Config) (v : Visit) (o : VisitObs) : Option String :=
+  if o.status != 200 then some "discovery-unavailable"
+  else if o.doc.Issuer != issuerOfRequest c.insecure v then some "document-issuer-not-of-this-request"
+  else match o.tokenIssuers.find? (fun ki => ki.2 != o.doc.Issuer) with
+  | some (k, _) => some ("issuer-differs-from-token-issuer:" ++ k)
+  | none =>
+    match Field.all.find? (fun f => !fieldAddressOK c o.doc f) with
+    | some f => some ("endpoint:" ++ f.name)
+    | none => none
+
+/-- a whole sequence of visits to one provider: the first visit that fails, with its position -/
+def monitorSequence (c : Config) : List (Visit × VisitObs) → Option (Nat × String)
+  | [] => none
+  | (v, o) :: rest =>
+    match monitorVisit c v o with
+    | some clause => some (0, clause)
+    | none => (monitorSequence c rest).map (fun (k, clause) => (k + 1, clause))
+
 /-! ### issuer validation at provider construction (the DiscURL parser is an oracle) -/
 
 /-- the statement's acceptable static issuers, over what `net/url.Parse` says about the string -/
